@@ -254,6 +254,78 @@ func copyWithInsert(n gen.Node, k *int, ins []gen.Node) (gen.Node, bool) {
 	return n, false
 }
 
+// failing sub-expressions and the expression positions they are placed in: an
+// error must surface from every operand position, not only from a whole statement
+var c17Failing = []func() gen.Expr{
+	func() gen.Expr { return &gen.EGroup{X: &gen.EBin{Op: "%", L: num(1), R: num(0)}} },
+	func() gen.Expr { return &gen.ECall{Fn: "nofunc"} },
+	func() gen.Expr { return &gen.EGroup{X: &gen.EBin{Op: "matches", L: num(1), R: str("(")}} },
+	func() gen.Expr { return &gen.EFilter{X: num(1), Name: "nofilter"} },
+}
+
+var c17Carriers = []func(e gen.Expr) gen.Node{
+	func(e gen.Expr) gen.Node { return pr(&gen.ECall{Fn: "fn", Args: []gen.Expr{e, num(2)}}) },           // non-last argument
+	func(e gen.Expr) gen.Node { return pr(&gen.ECall{Fn: "fn", Args: []gen.Expr{num(1), e, str("z")}}) }, // middle argument
+	func(e gen.Expr) gen.Node { return pr(&gen.ECall{Fn: "fn", Args: []gen.Expr{num(1), e}}) },           // last argument
+	func(e gen.Expr) gen.Node {
+		return pr(&gen.EFilter{X: str("v"), Name: "wrap", Args: []gen.Expr{e, num(2)}})
+	},
+	func(e gen.Expr) gen.Node { return pr(&gen.EFilter{X: e, Name: "wrap", Args: []gen.Expr{num(2)}}) },
+	func(e gen.Expr) gen.Node { return pr(&gen.ETest{X: num(4), Test: "eq", Args: []gen.Expr{e}}) },
+	func(e gen.Expr) gen.Node { return pr(&gen.ETest{X: e, Test: "pos"}) },
+	func(e gen.Expr) gen.Node { return pr(&gen.EArr{Els: []gen.Expr{e, num(2)}}) },
+	func(e gen.Expr) gen.Node {
+		return pr(&gen.EGroup{X: &gen.EHash{Keys: []gen.Expr{str("a"), str("b")}, Vals: []gen.Expr{e, num(2)}}})
+	},
+	func(e gen.Expr) gen.Node { return pr(&gen.EBin{Op: "~", L: e, R: str("x")}) },
+	func(e gen.Expr) gen.Node { return pr(&gen.EBin{Op: "~", L: str("x"), R: e}) },
+	func(e gen.Expr) gen.Node { return pr(&gen.EBin{Op: "and", L: &gen.EBool{V: false}, R: e}) },
+	func(e gen.Expr) gen.Node { return pr(&gen.ETern{C: e, A: num(1), B: num(2)}) },
+	func(e gen.Expr) gen.Node { return pr(&gen.ETern{C: &gen.EBool{V: true}, A: e, B: num(2)}) },
+	func(e gen.Expr) gen.Node { return pr(&gen.EUn{Op: "not", X: e}) },
+	func(e gen.Expr) gen.Node { return pr(&gen.EAttr{X: nm("arr"), Key: e}) },
+	func(e gen.Expr) gen.Node { return pr(&gen.EAttr{X: e, Key: num(0)}) },
+	func(e gen.Expr) gen.Node {
+		return pr(&gen.EMethod{X: nm("obj"), Name: "Add", Args: []gen.Expr{e, num(2)}})
+	},
+	func(e gen.Expr) gen.Node {
+		return pr(&gen.EInterp{Parts: []gen.Expr{&gen.EStr{S: "a"}, e, &gen.EStr{S: "b"}, num(1)}})
+	},
+	func(e gen.Expr) gen.Node { return &gen.NSet{Name: "errv", X: e} },
+	func(e gen.Expr) gen.Node { return &gen.NDo{X: &gen.ECall{Fn: "fn", Args: []gen.Expr{e, num(2)}}} },
+	func(e gen.Expr) gen.Node { return &gen.NIf{Conds: []gen.Expr{e}, Bodies: [][]gen.Node{{tx("t")}}} },
+	func(e gen.Expr) gen.Node {
+		return &gen.NIf{Conds: []gen.Expr{&gen.EBool{V: false}, e}, Bodies: [][]gen.Node{{tx("t")}, {tx("u")}}}
+	},
+	func(e gen.Expr) gen.Node {
+		return &gen.NFor{Val: "ev", Seq: &gen.EArr{Els: []gen.Expr{e, num(2)}}, Body: []gen.Node{tx("t")}}
+	},
+	func(e gen.Expr) gen.Node {
+		return &gen.NFor{Val: "ev", Seq: &gen.EArr{Els: []gen.Expr{num(1), num(2)}}, Cond: e, Body: []gen.Node{tx("t")}}
+	},
+	func(e gen.Expr) gen.Node {
+		return &gen.NInclude{Tpl: str("part2"), With: &gen.EHash{Keys: []gen.Expr{nm("w"), nm("v")}, Vals: []gen.Expr{e, num(2)}}}
+	},
+	func(e gen.Expr) gen.Node { return &gen.NInclude{Tpl: &gen.EBin{Op: "~", L: e, R: str("x")}} },
+	func(e gen.Expr) gen.Node {
+		// a macro imported with from..import, failing argument in first position
+		return &gen.NIf{Conds: []gen.Expr{&gen.EBool{V: true}}, Bodies: [][]gen.Node{{
+			&gen.NFrom{Tpl: str("macros"), Names: [][2]string{{"mac0", "mac0"}}},
+			pr(&gen.ECall{Fn: "mac0", Args: []gen.Expr{e, num(2)}})}}}
+	},
+	func(e gen.Expr) gen.Node {
+		return &gen.NIf{Conds: []gen.Expr{&gen.EBool{V: true}}, Bodies: [][]gen.Node{{
+			&gen.NImport{Tpl: str("macros"), Alias: "emm"},
+			pr(&gen.EMethod{X: nm("emm"), Name: "mac0", Args: []gen.Expr{e, num(2)}})}}}
+	},
+	func(e gen.Expr) gen.Node {
+		return &gen.NSetCap{Name: "ecap", Body: []gen.Node{tx("c"), pr(&gen.ECall{Fn: "fn", Args: []gen.Expr{e, num(1)}})}}
+	},
+	func(e gen.Expr) gen.Node {
+		return &gen.NFilter{Filters: []string{"up"}, Body: []gen.Node{pr(&gen.EArr{Els: []gen.Expr{e, e}})}}
+	},
+}
+
 var c17Errors = []func() gen.Node{
 	func() gen.Node { return &gen.NPrint{X: &gen.ECall{Fn: "nofunc"}} },
 	func() gen.Node { return &gen.NInclude{Tpl: str("missing-template")} },
@@ -358,9 +430,16 @@ func (p *c17) Run(i int) (res fw.Result) {
 		mt := ts[main]
 		points := countPoints(mt.Body)
 		for pt := 0; pt < points; pt++ {
-			ekind := (pt + i) % len(c17Errors)
+			nk := len(c17Errors) + len(c17Carriers)
+			ekind := (pt*7 + i) % nk
 			k := pt
-			ins := []gen.Node{&gen.NDo{X: &gen.ECall{Fn: "fn", Args: []gen.Expr{str("MARK")}}}, c17Errors[ekind]()}
+			var failing gen.Node
+			if ekind < len(c17Errors) {
+				failing = c17Errors[ekind]()
+			} else {
+				failing = c17Carriers[ekind-len(c17Errors)](c17Failing[(pt+i)%len(c17Failing)]())
+			}
+			ins := []gen.Node{&gen.NDo{X: &gen.ECall{Fn: "fn", Args: []gen.Expr{str("MARK")}}}, failing}
 			body, ok := insertAt(mt.Body, &k, ins)
 			if !ok {
 				continue
@@ -416,7 +495,7 @@ func (p *c17) Run(i int) (res fw.Result) {
 }
 
 func (p *c17) Rule() string {
-	return "per template (20 hand-written ones covering every construct that writes: text, print, filter sections incl. nested and last-in-template, loops, include, embed, set-capture, macros, block(), if, import/from, verbatim, for-else; two inheritance chains with parent(); plus seeded programs from the generator: 300 quick / 3000 thorough): fault-free Execute and ExecuteSafe first (ExecuteSafe must deliver byte-identical output, or nothing if rendering fails), then EVERY fault point: (a) the destination writer failing at its k-th Write for every k=1..W, once rejecting the whole write and once accepting half of it; (b) the loader failing at its k-th Load for every k=1..L, once with an error and once by returning a syntactically broken template, through Execute and ExecuteSafe; (c) for generated programs a failing construct (unknown function, missing include, invalid regular expression, unknown filter section, modulo by zero) inserted at every node boundary of the main template's structure tree, nested bodies included, with a recorded marker call in front of it telling whether it was executed. Oracles: non-nil error, accepted bytes are a prefix of the fault-free output, no Write after a failed Write, ExecuteSafe made no Write at all on failure. Non-trivial = template with >=2 writes; distinct = template."
+	return "per template (20 hand-written ones covering every construct that writes: text, print, filter sections incl. nested and last-in-template, loops, include, embed, set-capture, macros, block(), if, import/from, verbatim, for-else; two inheritance chains with parent(); plus seeded programs from the generator: 300 quick / 3000 thorough): fault-free Execute and ExecuteSafe first (ExecuteSafe must deliver byte-identical output, or nothing if rendering fails), then EVERY fault point: (a) the destination writer failing at its k-th Write for every k=1..W, once rejecting the whole write and once accepting half of it; (b) the loader failing at its k-th Load for every k=1..L, once with an error and once by returning a syntactically broken template, through Execute and ExecuteSafe; (c) for generated programs a failing construct inserted at every node boundary - either a whole statement (unknown function, missing include, invalid regular expression, unknown filter section, modulo by zero) or one of 4 failing sub-expressions carried in one of 31 expression positions (first / middle / last argument of a function, filter, test, method or imported macro, array and hash elements, either operand, conditional parts, attribute key, interpolation, set value, if/elseif condition, loop sequence and condition, include name and with-hash, inside captures and filter sections) - of the main template's structure tree, nested bodies included, with a recorded marker call in front of it telling whether it was executed. Oracles: non-nil error, accepted bytes are a prefix of the fault-free output, no Write after a failed Write, ExecuteSafe made no Write at all on failure. Non-trivial = template with >=2 writes; distinct = template."
 }
 
 func (p *c17) Assumptions() []string {
